@@ -88,10 +88,10 @@ def _pos_axis(ax, rank):
 
 
 def reduce_shape(shape, axes):
-    if shape is None:
-        return None
     if axes == "all":
         return ()
+    if shape is None:
+        return None
     rank = len(shape)
     drop = set()
     for a in axes:
